@@ -930,6 +930,8 @@ class BptkServer(Flask):
                         yield '{"error": "no data was returned from run_step"}'
                 yield "]"
             except:
+                pass
+            finally:
                 instance.unlock()
             if self._external_state_adapter != None:
                 self._external_state_adapter.save_instance(self._instance_manager._get_instance_state(instance_uuid))
